@@ -232,7 +232,9 @@ impl<'de, const N: usize> Visitor<'de> for ByteHashVisitor<N> {
     where
         E: de::Error,
     {
-        let bytes = s.try_into().unwrap();
+        let bytes = s
+            .try_into()
+            .map_err(|_| de::Error::invalid_length(s.len(), &self))?;
         Ok(BytesHash(bytes))
     }
 }
